@@ -219,12 +219,13 @@ type c11Counter struct {
 	decls   map[*types.Func]*ast.FuncDecl
 	isEvent func(g *flow.Func, call *ast.CallExpr) bool
 	memo    map[*ast.FuncDecl]int
+	minMemo map[*ast.FuncDecl]int
 	busy    map[*ast.FuncDecl]bool
 	wit     map[*ast.FuncDecl]*flow.State
 }
 
 func c11NewCounter(c *core.Ctx, pkg *packages.Package, decls map[*types.Func]*ast.FuncDecl, isEvent func(g *flow.Func, call *ast.CallExpr) bool) *c11Counter {
-	return &c11Counter{c: c, pkg: pkg, decls: decls, isEvent: isEvent, memo: map[*ast.FuncDecl]int{}, busy: map[*ast.FuncDecl]bool{}, wit: map[*ast.FuncDecl]*flow.State{}}
+	return &c11Counter{c: c, pkg: pkg, decls: decls, isEvent: isEvent, memo: map[*ast.FuncDecl]int{}, minMemo: map[*ast.FuncDecl]int{}, busy: map[*ast.FuncDecl]bool{}, wit: map[*ast.FuncDecl]*flow.State{}}
 }
 
 func (k *c11Counter) weight(g *flow.Func, call *ast.CallExpr) int {
@@ -237,6 +238,30 @@ func (k *c11Counter) weight(g *flow.Func, call *ast.CallExpr) int {
 		}
 	}
 	return 0
+}
+
+// minWeight is the number of events a call contributes on EVERY returning path of the callee.
+func (k *c11Counter) minWeight(g *flow.Func, call *ast.CallExpr) int {
+	if k.isEvent(g, call) {
+		return 1
+	}
+	if callee, ok := g.Callee(call).(*types.Func); ok {
+		if fd := k.decls[callee.Origin()]; fd != nil {
+			return k.min(fd)
+		}
+	}
+	return 0
+}
+
+// min is the minimal number (saturating at 2) of events over the returning paths of fd.
+func (k *c11Counter) min(fd *ast.FuncDecl) int {
+	if _, ok := k.memo[fd]; !ok {
+		if k.busy[fd] {
+			return 0
+		}
+		k.max(fd)
+	}
+	return k.minMemo[fd]
 }
 
 func (k *c11Counter) max(fd *ast.FuncDecl) int {
@@ -279,10 +304,27 @@ func (k *c11Counter) max(fd *ast.FuncDecl) int {
 			for i, n := 0, k.weight(g, call); i < n; i++ {
 				c11Bump(st, "ev:n")
 			}
+			{
+				for i, n := 0, k.minWeight(g, call); i < n; i++ {
+					c11Bump(st, "ev:m")
+				}
+			}
 		}})
 	best := 0
+	least := -1
 	if res != nil {
 		for _, ex := range res.Exits {
+			if ex.Kind == flow.ExitReturn {
+				m := 0
+				if ex.State.Is("ev:m:2", flow.True) {
+					m = 2
+				} else if ex.State.Is("ev:m:1", flow.True) {
+					m = 1
+				}
+				if least < 0 || m < least {
+					least = m
+				}
+			}
 			n := 0
 			if ex.State.Is("ev:n:2", flow.True) {
 				n = 2
@@ -299,6 +341,10 @@ func (k *c11Counter) max(fd *ast.FuncDecl) int {
 	if best > 2 {
 		best = 2
 	}
+	if least < 0 {
+		least = 0
+	}
+	k.minMemo[fd] = least
 	k.memo[fd] = best
 	return best
 }
